@@ -254,6 +254,10 @@ func varargTypes(v ssa.Value) []types.Type {
 }
 
 func (e *Exec) memArgs(s *State, va Val, sorts []string, vtypes []types.Type) []string {
+	return e.memArgsT(s, va, sorts, vtypes, nil)
+}
+
+func (e *Exec) memArgsT(s *State, va Val, sorts []string, vtypes []types.Type, elemT types.Type) []string {
 	sv, ok := va.(SliceV)
 	if !ok {
 		e.abort("memdb: variadic arguments are not a slice")
